@@ -129,3 +129,52 @@ pub fn float_renderer(cx: &mut Ctx, rule: &str) {
         }
     }
 }
+
+
+/// S1: the sign of a formatted float is its sign BIT (so that -0.0 prints `-0.0`), except for NaN.
+/// In `owner::fname` of `rel`, the local that holds the sign text is initialised by `if COND { "-" } else { .. }`;
+/// COND is evaluated for -1.5, -0.0, 0.0, 1.5, +/-inf and both NaNs and must be true exactly for the negative
+/// non-NaN values including negative zero.
+pub fn float_sign_rule(cx: &mut Ctx, rule: &str, rel: &str, owner: &str, fname: &str) {
+    use crate::eval::{Machine, V};
+    cx.rule(rule, "the sign of a formatted float is its sign bit, NaN excepted: the condition under which the formatter writes `-` (evaluated for -1.5, -0.0, 0.0, 1.5, +/-inf, +/-NaN) holds exactly for the values with the sign bit set that are not NaN — so `-0.0` keeps its minus sign as in Python, and the `+` / blank sign option applies to everything else");
+    cx.floor(rule, 1);
+    let Ok(src) = sm::load(&cx.repo, rel) else { return cx.anchor_missing(rule, rel) };
+    let Some(f) = src.method(owner, fname) else { return cx.anchor_missing(rule, &format!("{}::{}", owner, fname)) };
+    let param = f.sig.inputs.iter().nth(1).and_then(|a| if let syn::FnArg::Typed(pt) = a { Some(sm::tsc(&pt.pat)) } else { None }).unwrap_or_else(|| "num".into());
+    // the `if COND { "-" } else { .. }` initialiser
+    let mut cond: Option<&syn::Expr> = None;
+    for st in &f.block.stmts {
+        if let syn::Stmt::Local(l) = st {
+            if let Some(init) = &l.init {
+                if let syn::Expr::If(i) = &*init.expr {
+                    let then_is_minus = matches!(i.then_branch.stmts.as_slice(), [syn::Stmt::Expr(x, None)] if sm::tsc(x) == "\"-\"");
+                    if then_is_minus && cond.is_none() {
+                        cond = Some(&i.cond);
+                    }
+                }
+            }
+        }
+    }
+    let Some(cond) = cond else {
+        return cx.fail(rule, &format!("{}/shape", rule), &src.loc(f), &format!("{}::{} has no `let sign = if <negative> {{ \"-\" }} else {{ .. }}`", owner, fname));
+    };
+    let none = |_: &V, _: &str, _: &[V]| -> Option<V> { None };
+    let samples: [(f64, bool, &str); 8] = [(-1.5, true, "-1.5"), (-0.0, true, "-0.0"), (0.0, false, "0.0"), (1.5, false, "1.5"), (f64::NEG_INFINITY, true, "-inf"), (f64::INFINITY, false, "inf"), (f64::NAN, false, "nan"), (-f64::NAN, false, "-nan")];
+    let mut bad = vec![];
+    for (x, want, name) in samples {
+        let mut mach = Machine::new(&none);
+        mach.set(&param, V::F(x));
+        match mach.eval(cond) {
+            Ok(V::Bool(b)) if b == want => {}
+            Ok(V::Bool(b)) => bad.push(format!("{}: minus sign {}", name, if b { "written" } else { "not written" })),
+            Ok(o) => bad.push(format!("{}: condition evaluates to {:?}", name, o)),
+            Err(e) => bad.push(format!("{}: not interpretable ({})", name, e)),
+        }
+    }
+    if bad.is_empty() {
+        cx.ok(rule, &format!("{}::{}: `-` exactly for sign bit set and not NaN (8 values evaluated)", owner, fname));
+    } else {
+        cx.fail(rule, &format!("{}/{}", rule, fname), &src.loc(f), &format!("{}::{} decides the minus sign wrongly: {}", owner, fname, bad.join("; ")));
+    }
+}
